@@ -51,31 +51,31 @@ LEVEL = {
  'C18': ('exploration', 'Seeded search over histories of inputs fed to one long-lived Parser / SbmlParser (valid grammar-generated strings with attached input faults: EOF, NUL, flipped byte, duplicated/deleted span, splice, stray parenthesis; convert_xor toggled; failing and succeeding inputs alternating), every outcome compared with a fresh parser and required to be an expression or a SymEngineException, under ASan/UBSan. Decides the reuse clause by sampling and contributes fault-shaped inputs to the safety clause; it is not coverage-guided fuzzing of arbitrary byte strings.', '4 (C18)'),
  'C19': ('exploration', 'Seeded search over allocator address-reuse policies (immediate LIFO, delayed FIFO, random, system) and stream chunkings while expression DAGs over every serialisable class are dumped and reloaded (string API and archive templates, DenseMatrix too); oracle eq + str + hash + double bit patterns + sharing restored. The allocator seam is what makes address-keyed sharing bugs reachable (ASan quarantine hides them). Sampling, not proof.', '4 (C19)'),
  'C20': ('fault_enumeration', 'Storage-fault injection between dumps and loads: bit flips, byte overwrites, torn writes, lost and misdirected sectors, spliced dumps, and field-targeted damage on the write boundaries recorded by the stream seam (counts, type codes, first-seen flags, sharing keys), loaded under a memory budget; outcome must be an expression that survives str/hash/eq/cmp/eval or a SymEngineException; ASan/UBSan. The space of mutations of valid dumps is sampled, not enumerated exhaustively.', '4 (C20)'),
- 'C23': ('exploration', 'The factorisation clause only: every polynomial is factored repeatedly under different rand() seed lists served by the link-time randomness seam (gf_factor, gf_zassenhaus, gf_shoup); factors checked by independent GF(p)[x] arithmetic (multiply back, monic, irreducible by Rabin test, distinct), the factor set must be identical under every seed list and entry point, and each call must end within a rand() draw budget. Sampling over (p, f, seeds).', '4 (C23)'),
+ 'C23': ('exploration', 'Seeded search over (a) factorisations replayed under many rand() seed lists and under forced outcomes of individual GMP draws (the randomness seam owns both std::rand() and mpz_urandomm), judged by an independent GF(p)[x] oracle (factors monic, irreducible, distinct, multiply back, identical under every seed list and entry point, bounded number of draws), and (b) histories of in-place and value-returning arithmetic (+=, -=, *=, /=, %=, negate, gf_div, shifts, powers, monic, gcd, lcm, diff, eval, square-free list/part, compose_mod, pow_mod, Frobenius base/map, distinct-degree factorisation) on a pool of mutable GaloisFieldDict objects over several fields per run, every pool member compared with the harness model after every step. Sampling, not proof.', '4 (C23) and 9'),
  'C25': ('exploration', 'Seeded search over histories of set/get/from_coo and every implemented CSR operation on a pool of CSR matrices kept in lock step with dense references; independent canonical-format check of the raw arrays plus element-wise comparison after every step; ASan/UBSan. No schedule or fault exists for this property: the simulator contributes the seeded history, the reference model, minimisation and replay.', '4 (C25)'),
- 'C32': ('exploration', 'Only the clauses that meet a seam: functions that draw random numbers (Pollard p-1/rho, Tonelli-Shanks via nthroot_mod*/powermod*) or consult the process-global sieve are replayed under several rand() seed lists and interleaved with sieve perturbations; brute-force oracles from the definitions, identical results across seeds and sieve states. The pure functions of the property are not covered.', '4 (C32)'),
+ 'C32': ('exploration', 'Seeded interleaving of calls of every function of the property with perturbations of the process-global prime sieve, each call replayed under several rand() seed lists and forced GMP draw outcomes; brute-force oracles from the definitions (raw GMP / __int128 arithmetic in the harness), identical results across seeds and sieve states. The clauses that meet a seam (randomised Pollard / Tonelli-Shanks paths, sieve clients) are decided by the seams; the pure functions (gcd ... probab_prime_p) ride along in the same workload against their definitions, which is plain input sampling and is said so. Large arguments (n >= 2^64 for the factoring methods, prime-power moduli up to 2^40 for modular roots) are judged by defining identities and the group-structure root count.', '4 (C32) and 9'),
  'C33': ('exploration', 'Seeded search over interleavings of logical clients of the process-global prime sieve (iterators, generate_primes callers, clear / set_clear / set_sieve_size, library clients), each step checked against an independent prime table and a per-iterator reference model, under ASan/UBSan with libstdc++ container annotations. Sampling of bounded histories (<=64 steps, limits <=3e6).', '4 (C33)'),
  'C41': ('exploration', 'Deterministic schedule search: real threads run the property\'s operations on shared untouched expressions while an uninstrumented futex scheduler decides, from the seed, who runs next at every atomic access of the thread-safe library (link-time wrap of __tsan_atomic* and __cxa_guard_*; source hooks in the ASan build). Oracles: ThreadSanitizer happens-before reports over the serialised execution, per-thread results equal to a sequential reference, reference-count conservation, unique Dummy indices, deadlock / step-cap liveness; same plans also under ASan/UBSan. Sampling of SC interleavings, not proof.', '4 (C41)'),
 }
 NOTE = {
- 'C13': 'Trusted: libm, the harness reference evaluator (sim/refeval.h), ASan/UBSan. The value oracle is applied only where all subexpressions are finite and the result is stable under 1e-9 perturbations (tolerance 1e-6); the fresh-evaluator oracle is exact. State after a failed init is not judged. Known finding: CSE changes atan2(e, e) results (root cause in atan2 autoevaluation, pinned by the test suite). LLVM evaluators not covered.',
+ 'C13': 'Trusted: libm, the harness reference evaluator (sim/refeval.h), ASan/UBSan. The value oracle is applied only where all subexpressions are finite and the result is stable under 1e-9 perturbations (tolerance 1e-6); the fresh-evaluator oracle is exact. State after a failed init is not judged. Inputs named like cse() temporaries (x0, x1, ...), used or unused by the outputs, are part of the workload. Known finding: CSE changes atan2(e, e) results (root cause in atan2 autoevaluation, pinned by the test suite). LLVM evaluators not covered.',
  'C18': 'Trusted: ASan/UBSan. Inputs that could legitimately take very long or exhaust memory (towers of powers; special functions of literals above 4 digits or with exponents, nested/repeated special functions such as gamma(gamma(18)); zeta/dirichlet_eta/polygamma above 99) are filtered by a conservative syntactic predicate and not run. Hang = still in the same step after 4 watchdog periods (6 min) alone in a fresh process; slower-than-watchdog runs that finish are notes. Known findings (known_findings.jsonl): lowergamma(n, x) / uppergamma(n, x) recurse n deep - stack overflow from a 20-byte input; that input family (either name with a literal of >= 4 digits inside its argument list) is replayed from known/C18 and left out of random exploration. Only mutations of grammar-generated strings up to 2500 bytes; arbitrary byte strings (fuzzing) not claimed.',
- 'C19': 'Trusted: eq/str/hash as equality oracles, ASan. Field-completeness of every save/load pair is sampled, not enumerated; NaN-valued doubles skip the eq oracle; generator avoids inputs on which constructors (not serialization) misbehave (listed in DESIGN.md).',
- 'C20': 'Trusted: ASan/UBSan, the memory budget (64 MB per request / 512 MB live -> std::bad_alloc). Only mutations of valid dumps are explored; post-load use is str, hash, eq, __cmp__, eval_double as the property lists. DenseMatrix::loads is not covered.',
- 'C23': 'Covers only the factorisation clause (random choices); the arithmetic clauses are pure and not decided here. p <= 199, degree <= 12 (p = 2: <= 8). Constant rand() streams are not injected.',
+ 'C19': 'Trusted: eq/str/hash as equality oracles, ASan. Field-completeness of every save/load pair is sampled, not enumerated (all classes with a save_basic overload are in the generator, including URatPoly, PrimePi, Primorial); integers around the word-size boundaries (2^31, 2^32, 2^63, 2^64, 10^18, 10^19) are generated on purpose; dumps that fail half way (an unserialisable node after serialisable ones) are interleaved with ordinary round trips on the same thread. NaN-valued doubles skip the eq oracle; generator avoids inputs on which constructors (not serialization) misbehave (listed in DESIGN.md).',
+ 'C20': 'Trusted: ASan/UBSan, the memory budget (64 MB per request / 512 MB live -> std::bad_alloc). Only mutations of valid dumps are explored (incl. integer strings replaced by adversarial numerals: "-", "", "0" as a denominator, "+1", "0x10", 19-20 digit boundary values ...); post-load use is str, hash, eq, __cmp__, eval_double as the property lists. DenseMatrix::loads is not covered.',
+ 'C23': 'Trusted: the harness GF(p)[x] arithmetic and Rabin test, ASan/UBSan. p <= 199, degree <= 12 for factorisation (p = 2: <= 8), <= 24 for arithmetic histories (a larger result is checked, then cut). Forced draws are boundary values (0, 1, 2, n/2, n-1) at chosen draw indices or for a bounded prefix (<= 120 draws), after which the seeded generator continues: constant streams without end are not injected, because retry loops legitimately need fresh randomness. gf_eval is called with points in [0, p) only; division of a constant by a non-zero multiple of p is not called (no inverse exists).',
  'C25': 'Trusted: DenseMatrix operations as reference, eq/expand for value comparison, ASan/UBSan. Matrices up to 8x8, entries numbers and monomials; a pool member whose entries grow beyond 40 expression nodes is checked and then replaced by small values on the same sparsity pattern (bounded run time). csr_matmat_pass2 results compared by value only (it neither sorts nor shrinks, as its SciPy original).',
- 'C32': 'Pure functions of the property (gcd, lcm, gcd_ext, mod/quotient families, mod_inverse, crt, fibonacci, lucas, binomial, factorial, divides, bernoulli, harmonic, legendre/jacobi/kronecker, quadratic_residues, polygonal numbers, perfect powers, nextprime, probab_prime_p) are NOT covered. Arguments bounded (n <= 1e6 plus 40-bit semiprimes, moduli <= 4000).',
+ 'C32': 'Trusted: raw GMP arithmetic (mpz_add/mul/divisible, mpq_*) and __int128 brute force in the harness, ASan/UBSan. Bounds: n <= 1e6 plus 40-bit semiprimes and n = q*r >= 2^64 with a small prime q for factoring; moduli <= 4000, primes = 1 (mod 8) in [10000, 34000] (Tonelli-Shanks path), and prime powers <= 2^40 with gcd(a, p) = 1 for the group-structure oracle; pure functions on arguments up to 2e12 (fibonacci/lucas <= 400, factorial <= 200, bernoulli <= 44). Which non-trivial divisor / which root / which primitive root of a composite modulus is returned is unspecified: only validity is required; Pollard methods may fail, never lie. Roots are compared as residues (negative representatives accepted).',
  'C33': 'Trusted: the harness sieve of Eratosthenes as reference, ASan/UBSan reporting. Bounds: sieve sizes {1,2,3,4,8,16,32,64} KB, limits <= 3e6, <=5 live iterators. A bounded iterator is allowed to return cached primes beyond its limit (callers test p <= limit).',
- 'C41': 'Trusted: ThreadSanitizer (bounded per-location history), the uninstrumented scheduler. Sequentially consistent interleavings at atomic-access granularity only (no hardware weak-memory effects); WITH_SYMENGINE_RCP=yes; operations outside the property list (sieve, series) not run concurrently.',
+ 'C41': 'Trusted: ThreadSanitizer (bounded per-location history), the uninstrumented scheduler. Sequentially consistent interleavings at atomic-access granularity only (no hardware weak-memory effects); WITH_SYMENGINE_RCP=yes; operations outside the property list (sieve, series) not run concurrently. Besides shared expressions the workload has sibling pairs (same tree, one leaf changed, so eq/__cmp__ walk both to the end) and hand-off objects owned by the worker threads alone and released through reset / assignment / destruction (each must be destroyed exactly once).',
 }
 TECH = {
  'C13': 'deterministic simulation: seeded history on stateful evaluator objects + fresh-object / reference-evaluator oracles, ASan/UBSan, ddmin replay',
  'C18': 'deterministic simulation: seeded input history on a reused parser with injected input faults + fresh-parser oracle, ASan/UBSan, ddmin replay',
  'C19': 'deterministic simulation: allocator seam (address-reuse policies) + stream seam around dumps/loads, round-trip oracle, ddmin replay',
  'C20': 'deterministic simulation with storage fault injection (bit/byte/torn/lost/misdirected/field-targeted) under a memory budget, ASan/UBSan, ddmin replay',
- 'C23': 'deterministic simulation: link-time rand() seam replaying each factorisation under many seed lists, independent GF(p) oracle, draw-budget liveness',
+ 'C23': 'deterministic simulation: randomness seam (link-time wrap of rand() and mpz_urandomm: seed lists + forced draw outcomes), seeded histories on mutable polynomial objects with a reference model, independent GF(p) oracle, draw-budget liveness, history-aware replay',
  'C25': 'deterministic simulation: seeded operation history on mutable CSR matrices in lock step with a dense reference model, ASan/UBSan, ddmin replay',
- 'C32': 'deterministic simulation: rand() seam + perturbation of the global sieve between calls, brute-force oracles, seed/state independence',
+ 'C32': 'deterministic simulation: randomness seam (rand() + forced mpz_urandomm draws) and perturbation of the process-global sieve between calls, brute-force / defining-identity oracles, seed and state independence',
  'C33': 'deterministic simulation: seeded interleaving of cooperative clients over the global sieve + reference model, ASan/UBSan, ddmin replay',
  'C41': 'deterministic simulation: seeded scheduler over real threads (parked/released at intercepted atomic accesses and static guards) + ThreadSanitizer + sequential reference, replay by plan',
 }
